@@ -430,6 +430,7 @@ func builtinStringSubstring(call FunctionCall) Value {
 }
 
 func builtinStringSubstr(call FunctionCall) Value {
+	checkObjectCoercible(call.runtime, call.This)
 	target := []rune(call.This.string())
 
 	size := int64(len(target))
